@@ -757,4 +757,334 @@ theorem step_no_panic (st : St) (m : Msg) : ∀ st', step st m ≠ (st', .panick
       · simp only
         split <;> (intro h; cases h)
 
+/-! ### fault-free runs of a multi-root duty -/
+
+theorem filter_len_succ (l : List Nat) (hnd : l.Nodup) (s : Nat) (hs : s ∈ l) (p p' : Nat → Bool)
+    (hp : p s = false) (hp' : p' s = true) (h : ∀ x ∈ l, x ≠ s → p' x = p x) :
+    (l.filter p').length = (l.filter p).length + 1 := by
+  induction l with
+  | nil => cases hs
+  | cons a t ih =>
+    rw [List.nodup_cons] at hnd
+    by_cases has : a = s
+    · subst has
+      have ht : (t.filter p').length = (t.filter p).length := by
+        apply filter_len_eq
+        intro x hx
+        apply h x (List.mem_cons_of_mem a hx)
+        intro hxs; subst hxs; exact hnd.1 hx
+      simp [hp, hp', ht]
+    · have hst : s ∈ t := by
+        rcases List.mem_cons.1 hs with e | e
+        · exact absurd e.symm has
+        · exact e
+      have iht := ih hnd.2 hst (fun x hx => h x (List.mem_cons_of_mem a hx))
+      have ha := h a List.mem_cons_self has
+      simp only [List.filter_cons, ha]
+      by_cases h2 : p a = true <;> simp [h2] <;> omega
+
+/-- count of a row after the cell of signer `s` was (re)written to a stored share and nothing else in the row changed -/
+theorem row_count_update (cm : List Nat) (hcm : cm.Nodup) (c c1 : Container) (r s : Nat) (hs : s ∈ cm)
+    (hsame : ∀ x, x ≠ s → c1.get r x = c.get r x) (hset : (c1.get r s).isSome = true) :
+    count cm c1 r = count cm c r + (if (c.get r s).isSome then 0 else 1) := by
+  unfold count signersOf
+  by_cases hp : (c.get r s).isSome = true
+  · simp only [hp, if_true, Nat.add_zero]
+    apply filter_len_eq
+    intro x _
+    by_cases e : x = s
+    · subst e; rw [hset, hp]
+    · rw [hsame x e]
+  · have hp' : (c.get r s).isSome = false := by simpa using hp
+    simp only [hp', Bool.false_eq_true, if_false]
+    exact filter_len_succ cm hcm s hs _ _ hp' hset (fun x _ e => by rw [hsame x e])
+
+/-- no wrong share is stored -/
+def Clean (c : Container) : Prop := ∀ r s, c.get r s ≠ some false
+
+theorem clean_processOne_good (q : Nat) (cm : List Nat) (c : Container) (s r : Nat) (h : Clean c) :
+    Clean (processOne q cm c s r true).1 := by
+  intro r' s'
+  by_cases e : r' = r ∧ s' = s
+  · obtain ⟨e1, e2⟩ := e; subst e1; subst e2
+    rw [processOne_get_good]; simp
+  · rw [processOne_get_other q cm c s r true r' s' e]; exact h r' s'
+
+theorem allGood_of_clean (cm : List Nat) (c : Container) (r : Nat) (h : Clean c) : allGood cm c r = true := by
+  rw [allGood_iff]
+  intro s _ hs
+  cases hc : c.get r s with
+  | none => rw [hc] at hs; simp at hs
+  | some v => cases v with
+    | true => rfl
+    | false => exact absurd hc (h r s)
+
+/-- `basePartialSigMsgProcessing` on a message whose shares are all correct, roots pairwise distinct, every root currently
+    holding `N < q` shares and the signer uniformly present/absent: all cells of the signer become correct shares; either
+    every root is reported (signer new and `N + 1` reaches the quorum) or none -/
+theorem processEntries_good (q : Nat) (cm : List Nat) (hcm : cm.Nodup) (s : Nat) (hs : s ∈ cm) (N : Nat) (hN : N < q)
+    (present : Bool) (rs : List Nat) (hnd : rs.Nodup) (c : Container) (acc : List Nat)
+    (hclean : Clean c) (hcnt : ∀ r ∈ rs, count cm c r = N) (hpres : ∀ r ∈ rs, (c.get r s).isSome = present) :
+    let res := processEntries q cm s c (rs.map fun r => (r, true)) acc
+    res.2 = acc ++ (if !present && decide (q ≤ N + 1) then rs else []) ∧
+    Clean res.1 ∧ (∀ r ∈ rs, res.1.get r s = some true) ∧
+    (∀ r x, (r ∉ rs ∨ x ≠ s) → res.1.get r x = c.get r x) := by
+  induction rs generalizing c acc with
+  | nil => simp [processEntries, hclean]
+  | cons r t ih =>
+    rw [List.nodup_cons] at hnd
+    simp only [List.map_cons, processEntries]
+    have hc1clean := clean_processOne_good q cm c s r hclean
+    have hget := processOne_get_good q cm c s r
+    have hother := processOne_get_other q cm c s r true
+    have hcntr := hcnt r (by simp)
+    have hpresr := hpres r (by simp)
+    have hrow := row_count_update cm hcm c (processOne q cm c s r true).1 r s hs
+      (fun x e => hother r x (by simp [e])) (by rw [hget]; rfl)
+    have hprev : hasQuorum q cm c r = false := by simp [hasQuorum, hcntr]; omega
+    have hedge : (processOne q cm c s r true).2 = (!present && decide (q ≤ N + 1)) := by
+      rw [processOne_edge, hprev, hasQuorum, hrow, hcntr, hpresr]
+      cases present <;> simp <;> omega
+    have hcnt' : ∀ r' ∈ t, count cm (processOne q cm c s r true).1 r' = N := by
+      intro r' hr'
+      have hne : r' ≠ r := fun e => hnd.1 (e ▸ hr')
+      rw [← hcnt r' (List.mem_cons_of_mem _ hr')]
+      unfold count signersOf
+      apply filter_len_eq
+      intro x _
+      rw [hother r' x (by simp [hne])]
+    have hpres' : ∀ r' ∈ t, ((processOne q cm c s r true).1.get r' s).isSome = present := by
+      intro r' hr'
+      have hne : r' ≠ r := fun e => hnd.1 (e ▸ hr')
+      rw [hother r' s (by simp [hne])]
+      exact hpres r' (List.mem_cons_of_mem _ hr')
+    obtain ⟨i1, i2, i3, i4⟩ := ih hnd.2 (processOne q cm c s r true).1
+      (if (processOne q cm c s r true).2 then acc ++ [r] else acc) hc1clean hcnt' hpres'
+    refine ⟨?_, i2, ?_, ?_⟩
+    · rw [i1, hedge]
+      cases hcond : (!present && decide (q ≤ N + 1)) <;> simp
+    · intro r' hr'
+      rcases List.mem_cons.1 hr' with e | e
+      · subst e
+        rw [i4 r' s (Or.inl hnd.1)]; exact hget
+      · exact i3 r' e
+    · intro r' x hx
+      have hx' : r' ∉ t ∨ x ≠ s := by
+        rcases hx with h | h
+        · exact Or.inl (fun e => h (List.mem_cons_of_mem _ e))
+        · exact Or.inr h
+      rw [i4 r' x hx']
+      apply hother
+      rcases hx with h | h
+      · intro e; exact h (by simp [e.1])
+      · intro e; exact h e.2
+
+/-- the submission loop when every root reconstructs -/
+theorem handleRoots_all_ok (q : Nat) (cm : List Nat) (allRoots : List Nat) (submitIf : Nat → Bool) (c : Container)
+    (rs : List Nat) (acc : List Sub) (h : ∀ r ∈ rs, reconstructOK q cm c r = true ∧ submitIf r = true) :
+    handleRoots q cm allRoots submitIf c rs acc = (c, acc ++ rs.map (fun r => ⟨r, sharesOf cm c r⟩), true) := by
+  induction rs generalizing acc with
+  | nil => simp [handleRoots]
+  | cons r t ih =>
+    obtain ⟨h1, h2⟩ := h r (by simp)
+    simp only [handleRoots, h1, h2, if_true]
+    rw [ih _ (fun x hx => h x (List.mem_cons_of_mem _ hx))]
+    simp
+
+/-- fault-free collection invariant: no wrong share stored, every expected root holds the shares of exactly the signers
+    in `P`, `N` of them, fewer than the quorum -/
+structure FF (st : St) (N : Nat) (P : List Nat) : Prop where
+  clean : Clean st.c
+  cnt : ∀ r ∈ st.expected, count st.cm st.c r = N
+  lt : N < st.q
+  pres : ∀ r ∈ st.expected, ∀ s, (st.c.get r s).isSome = decide (s ∈ P)
+
+theorem entries_all_good (m : Msg) (h : hasBadShare m = false) :
+    (m.entries.map fun e => (e.2.1, e.2.2)) = (m.entries.map (·.2.1)).map fun r => (r, true) := by
+  rw [List.map_map]
+  apply List.map_congr_left
+  intro e he
+  simp only [hasBadShare, List.any_eq_false, Bool.not_eq_true', Bool.not_eq_false] at h
+  have := h e he
+  simp [this]
+
+/-- one well-formed all-correct message in a fault-free unfinished multi-root collection: either it is just stored (the
+    invariant continues with the signer added) or it completes the quorum of EVERY root at once and every root is submitted -/
+theorem step_ff (st : St) (m : Msg) (N : Nat) (P : List Nat) (hcm : st.cm.Nodup) (hexp : st.expected.Nodup)
+    (hsty : st.style ≠ .first) (hval : validate st m = none) (hgood : hasBadShare m = false) (hff : FF st N P) :
+    ((step st m).1.finished = false ∧ subsOf (step st m).2 = [] ∧
+        FF (step st m).1 (if m.signer ∈ P then N else N + 1) (if m.signer ∈ P then P else m.signer :: P)) ∨
+    ((step st m).1.finished = true ∧ ((subsOf (step st m).2).map (·.root)).Perm st.expected) := by
+  obtain ⟨hfin, _, hform⟩ := validate_none st m hval
+  obtain ⟨_, _, _, hmem, _, hperm⟩ := validateForm_none _ _ m hform
+  have hrnd : (m.entries.map (·.2.1)).Nodup := hperm.nodup_iff.2 hexp
+  have hrexp : ∀ r, r ∈ m.entries.map (·.2.1) ↔ r ∈ st.expected := fun r => hperm.mem_iff
+  obtain ⟨e1, e2, e3, e4⟩ := processEntries_good st.q st.cm hcm m.signer hmem N hff.lt (decide (m.signer ∈ P))
+    (m.entries.map (·.2.1)) hrnd st.c [] hff.clean (fun r hr => hff.cnt r ((hrexp r).1 hr))
+    (fun r hr => hff.pres r ((hrexp r).1 hr) m.signer)
+  unfold step
+  rw [hval]
+  simp only []
+  rw [entries_all_good m hgood]
+  generalize hpe : processEntries st.q st.cm m.signer st.c ((m.entries.map (·.2.1)).map fun r => (r, true)) [] = pe at e1 e2 e3 e4
+  obtain ⟨c1, edges⟩ := pe
+  simp only [List.nil_append] at e1 e2 e3 e4
+  simp only []
+  -- the row counts after the message
+  have hrow : ∀ r ∈ st.expected, count st.cm c1 r = N + (if m.signer ∈ P then 0 else 1) := by
+    intro r hr
+    have := row_count_update st.cm hcm st.c c1 r m.signer hmem (fun x e => e4 r x (Or.inr e))
+      (by rw [e3 r ((hrexp r).2 hr)]; rfl)
+    rw [this, hff.cnt r hr, hff.pres r hr m.signer]
+    by_cases hp : m.signer ∈ P <;> simp [hp]
+  by_cases hcond : (!decide (m.signer ∈ P) && decide (st.q ≤ N + 1)) = true
+  · -- every root crosses the quorum edge and reconstructs
+    right
+    rw [hcond] at e1
+    simp only [if_true] at e1
+    subst e1
+    have hP : m.signer ∉ P := by
+      simp only [Bool.and_eq_true, Bool.not_eq_true', decide_eq_false_iff_not, decide_eq_true_eq] at hcond
+      exact hcond.1
+    have hq : st.q ≤ N + 1 := by
+      simp only [Bool.and_eq_true, decide_eq_true_eq] at hcond
+      exact hcond.2
+    have hne : (m.entries.map (·.2.1)).isEmpty = false := by
+      cases hm : m.entries.map (·.2.1) with
+      | nil =>
+        exfalso
+        obtain ⟨_, _, _, _, hlen, _⟩ := validateForm_none _ _ m hform
+        unfold validateForm at hform
+        have : m.entries = [] := by simpa using hm
+        simp [this] at hform
+        split at hform <;> simp at hform
+      | cons a t => rfl
+    simp only [hne, Bool.false_eq_true, if_false]
+    have hall : ∀ r ∈ m.entries.map (·.2.1), reconstructOK st.q st.cm c1 r = true ∧
+        (st.style == Style.loop || st.expected.contains r) = true := by
+      intro r hr
+      have hre := (hrexp r).1 hr
+      refine ⟨?_, by simp [hre]⟩
+      simp only [reconstructOK, Bool.and_eq_true, decide_eq_true_eq]
+      refine ⟨allGood_of_clean _ _ _ e2, ?_⟩
+      rw [hrow r hre]; simp [hP]; exact hq
+    cases hs : st.style with
+    | first => exact absurd hs hsty
+    | loop =>
+      rw [handleRoots_all_ok _ _ _ _ _ _ _ (by simpa [hs] using hall)]
+      simp only [if_true, subsOf, List.nil_append, List.map_map]
+      refine ⟨trivial, ?_⟩
+      simpa [Function.comp_def] using hperm
+    | loopMatch =>
+      rw [handleRoots_all_ok _ _ _ _ _ _ _ (by simpa [hs] using hall)]
+      simp only [if_true, subsOf, List.nil_append, List.map_map]
+      refine ⟨trivial, ?_⟩
+      simpa [Function.comp_def] using hperm
+  · -- stored, no edge
+    left
+    have hcond' : (!decide (m.signer ∈ P) && decide (st.q ≤ N + 1)) = false := by simpa using hcond
+    rw [hcond'] at e1
+    simp only [Bool.false_eq_true, if_false] at e1
+    subst e1
+    simp only [List.isEmpty_nil, if_true, subsOf]
+    refine ⟨hfin, ?_, ?_⟩
+    · first | rfl | trivial
+    refine ⟨e2, ?_, ?_, ?_⟩
+    · intro r hr
+      rw [hrow r hr]
+      by_cases hp : m.signer ∈ P <;> simp [hp]
+    · have := hff.lt
+      by_cases hp : m.signer ∈ P
+      · simp [hp]; exact this
+      · simp only [hp, if_false]
+        simp only [hp, decide_false, Bool.not_false, Bool.true_and, decide_eq_false_iff_not] at hcond'
+        show N + 1 < st.q
+        omega
+    · intro r hr x
+      by_cases ex : x = m.signer
+      · subst ex
+        rw [e3 r ((hrexp r).2 hr)]
+        by_cases hp : m.signer ∈ P <;> simp [hp]
+      · rw [e4 r x (Or.inr ex), hff.pres r hr x]
+        by_cases hp : m.signer ∈ P
+        · simp [hp]
+        · simp only [hp, if_false, List.mem_cons]
+          simp [ex]
+
+theorem run_finished (st : St) (ms : List Msg) (h : st.finished = true) : run st ms = (st, []) := by
+  induction ms with
+  | nil => rfl
+  | cons m t ih => simp only [run, step_finished st m h, ih, subsOf, List.append_nil]
+
+/-- fault-free multi-root run: while unfinished the invariant holds and every sender of a well-formed message is stored;
+    when the duty finishes, every expected root has been submitted -/
+theorem run_ff (ms : List Msg) (st : St) (N : Nat) (P : List Nat) (hcm : st.cm.Nodup) (hexp : st.expected.Nodup)
+    (hsty : st.style ≠ .first) (hdec : st.decided = true)
+    (hclean : ∀ m ∈ ms, validateForm st.cm st.expected m = none → hasBadShare m = false)
+    (hff : st.finished = false → FF st N P) :
+    ((run st ms).1.finished = false → ∃ N' P', FF (run st ms).1 N' P' ∧
+        ∀ s, (s ∈ P ∨ ∃ m ∈ ms, m.signer = s ∧ validateForm st.cm st.expected m = none) → s ∈ P') ∧
+    (st.finished = false → (run st ms).1.finished = true → ∀ r ∈ st.expected, r ∈ (run st ms).2.map (·.root)) := by
+  induction ms generalizing st N P with
+  | nil =>
+    refine ⟨?_, ?_⟩
+    · intro hf
+      refine ⟨N, P, hff hf, ?_⟩
+      rintro s (h | ⟨m, hm, _⟩)
+      · exact h
+      · cases hm
+    · intro h1 h2; simp [run, h1] at h2
+  | cons m t ih =>
+    obtain ⟨pq, pcm, pe, ps, pd⟩ := step_params st m
+    by_cases hfin : st.finished = true
+    · rw [run_finished st _ hfin]
+      exact ⟨fun h => by simp [hfin] at h, fun h => by simp [hfin] at h⟩
+    · have hfin' : st.finished = false := by simpa using hfin
+      have hffst := hff hfin'
+      simp only [run]
+      cases hv : validateForm st.cm st.expected m with
+      | some why =>
+        rw [step_rejected st m why (by rw [validate_eq_form st m hfin' hdec, hv])]
+        obtain ⟨i1, i2⟩ := ih st N P hcm hexp hsty hdec (fun x hx => hclean x (List.mem_cons_of_mem _ hx)) hff
+        refine ⟨?_, by simpa [subsOf] using i2⟩
+        intro hf
+        obtain ⟨N', P', a, b⟩ := i1 hf
+        refine ⟨N', P', a, ?_⟩
+        rintro s (h | ⟨m', hm', h1, h2⟩)
+        · exact b s (Or.inl h)
+        · rcases List.mem_cons.1 hm' with e | h
+          · subst e; rw [hv] at h2; cases h2
+          · exact b s (Or.inr ⟨m', h, h1, h2⟩)
+      | none =>
+        have hval : validate st m = none := by rw [validate_eq_form st m hfin' hdec, hv]
+        have hgood := hclean m (by simp) hv
+        rcases step_ff st m N P hcm hexp hsty hval hgood hffst with ⟨f1, f2, f3⟩ | ⟨f1, f2⟩
+        · -- stored
+          obtain ⟨i1, i2⟩ := ih (step st m).1 _ _ (by rw [pcm]; exact hcm) (by rw [pe]; exact hexp) (by rw [ps]; exact hsty)
+            (by rw [pd]; exact hdec) (by rw [pcm, pe]; exact fun x hx => hclean x (List.mem_cons_of_mem _ hx)) (fun _ => f3)
+          refine ⟨?_, ?_⟩
+          · intro hf
+            obtain ⟨N', P', a, b⟩ := i1 hf
+            refine ⟨N', P', a, ?_⟩
+            rintro s (h | ⟨m', hm', h1, h2⟩)
+            · apply b s; left
+              by_cases hp : m.signer ∈ P <;> simp [hp, h]
+            · rcases List.mem_cons.1 hm' with e | h
+              · subst e; subst h1
+                apply b m'.signer; left
+                by_cases hp : m'.signer ∈ P <;> simp [hp]
+              · apply b s; right
+                rw [pcm, pe]; exact ⟨m', h, h1, h2⟩
+          · intro _ hfinal r hr
+            rw [f2, List.nil_append]
+            have := i2 f1 hfinal r (by rw [pe]; exact hr)
+            exact this
+        · -- the quorum of every root completed in this step
+          rw [run_finished _ t f1]
+          refine ⟨fun h => by simp [f1] at h, ?_⟩
+          intro _ _ r hr
+          simp only [List.append_nil]
+          exact f2.mem_iff.2 hr
+
+
 end Ssv.PartialSig
